@@ -223,9 +223,11 @@ def pred_gaol_div_rel_M(line):
 PREDICATES = {"gaol_div_rel_M": pred_gaol_div_rel_M}
 
 
-def match_known(pid, line, known):
+def match_known(pid, line, known, verdict=""):
     for k in known.get("findings", []):
         if k["property"] != pid:
+            continue
+        if "verdict_match" in k and not re.search(k["verdict_match"], verdict):
             continue
         if re.search(k["match"], line):
             if "pred" in k and not PREDICATES[k["pred"]](line):
@@ -315,7 +317,7 @@ def main():
                     if len(samples) < 12 and (stats["by_op"][op] in (1, 50)):
                         samples.append({"line": line[:400], "verdict": verdict[:200]})
                     continue
-                k = match_known(pid, line, known)
+                k = match_known(pid, line, known, verdict)
                 if k is not None:
                     known_hits[k["id"]] = k
                     continue
